@@ -38,7 +38,7 @@ func init() {
 		Bound: func(tier string) string {
 			if tier == "thorough" {
 				return fmt.Sprintf("trees <=3 nodes over %d leaves, <=4 nodes over %d leaves, <=6 nodes over %d leaves, each as simple and gen values; keys over %d strings; chains of depth 1-5,29-33,62-67,130; tables 2-3 rows x 1-3 columns, all presence patterns x 8 cell kinds (plain and nested); texts > 1024 bytes; "+
-					"oj: 7 layouts (tight, indent 1/2/4/130, tab, tab+indent) x Sort x OmitNil x OmitEmpty x HTMLUnsafe (the 4-node trees of the 20-leaf set and the 6-node trees of the 5-leaf set: layouts tight, indent 2, tab); "+
+					"oj: 7 layouts (tight, indent 1/2/4/130, tab, tab+indent) x Sort x OmitNil x OmitEmpty x HTMLUnsafe (the 4-node trees of the 20-leaf set and the 6-node trees of the 5-leaf set: layouts tight, indent 2, tab; the 6-node trees with HTMLUnsafe at its default only); "+
 					"pretty: Width {1,8,20,40,80,200} x MaxDepth {1,2,3} x Align x OmitNil x OmitEmpty x HTMLUnsafe on the <=3-node trees, keys, chains and tables, (Width,MaxDepth) in {(80,3),(8,1),(20,2)} on the larger tree sets; WriteLimit {1,2,3,7,64,1024} + byte-wise sink",
 					len(fullLeaves()), len(mediumLeaves()), len(reducedLeaves()), len(keyStrings()))
 			}
@@ -91,6 +91,8 @@ func keyStrings() []string {
 type plan struct {
 	ojVecs     []optVec // in-memory oj vectors
 	ojSm       []optVec // the three basic layouts only (largest tree classes of the thorough tier)
+	ojTiny     []optVec // ojSm with HTMLUnsafe left at its default (6-node trees: escaping does not depend on shape)
+	prettyTiny []optVec // prettySm with HTMLUnsafe left at its default
 	prettySm   []optVec // pretty vectors for the big tree families
 	prettyFull []optVec // pretty vectors for tables, chains, small trees
 	wls        []int
@@ -124,6 +126,9 @@ func newPlan(quick bool) *plan {
 			p.ojVecs = append(p.ojVecs, v)
 			if (l.indent == 0 || l.indent == 2) && !(l.tab && l.indent != 0) {
 				p.ojSm = append(p.ojSm, v)
+				if v.HTMLUnsafe {
+					p.ojTiny = append(p.ojTiny, v)
+				}
 			}
 		}
 	}
@@ -148,6 +153,11 @@ func newPlan(quick bool) *plan {
 		return
 	}
 	p.prettySm, p.prettyFull = mk(small), mk(full)
+	for _, v := range p.prettySm {
+		if v.HTMLUnsafe {
+			p.prettyTiny = append(p.prettyTiny, v)
+		}
+	}
 	p.wls = []int{1, 3, 1024}
 	if !quick {
 		p.wls = []int{1, 2, 3, 7, 64, 1024}
@@ -194,6 +204,7 @@ type runner struct {
 	plan    *plan
 	samples int
 	smallOj bool
+	tiny    bool
 }
 
 func nodes(t any) int {
@@ -225,6 +236,7 @@ func run(c *core.Ctx) {
 			}
 			if c.Mine(idx) {
 				r.smallOj = !c.Quick() && ((fam == "trees-reduced" && nodes(t) >= 6) || (fam == "trees-medium" && nodes(t) >= 4))
+				r.tiny = !c.Quick() && fam == "trees-reduced" && nodes(t) >= 6
 				r.tree(fam, t, full)
 				if c.Expired("C04 " + fam) {
 					stop = true
@@ -352,6 +364,8 @@ func (r *runner) evalAll(t, v any, multi, fullPretty bool, fam, rep string) (fai
 	pv := r.plan.prettySm
 	if fullPretty {
 		pv = r.plan.prettyFull
+	} else if r.tiny {
+		pv = r.plan.prettyTiny
 	}
 	for _, e := range entries {
 		switch {
@@ -365,6 +379,9 @@ func (r *runner) evalAll(t, v any, multi, fullPretty bool, fam, rep string) (fai
 			ojv := r.plan.ojVecs
 			if r.smallOj {
 				ojv = r.plan.ojSm
+			}
+			if r.tiny {
+				ojv = r.plan.ojTiny
 			}
 			for i := range ojv {
 				run(e, &ojv[i], false)
